@@ -130,3 +130,43 @@ func TestC09Refine(t *testing.T) {
 	m, err := parquet.MergeRowGroups(rgs, parquet.SortingRowGroupConfig(parquet.SortingColumns(sortCols...)), keyedSchema)
 	fmt.Printf("merged type %T err %v rows %d\n", m, err, m.NumRows())
 }
+
+// TestC11Dump is a triage aid: PQSIM_REPLAY=<C11 replay file> prints per chunk what both paths wrote.
+func TestC11Dump(t *testing.T) {
+	path := os.Getenv("PQSIM_REPLAY")
+	if path == "" {
+		t.Skip()
+	}
+	raw, _ := os.ReadFile(path)
+	var rf struct {
+		Scenario json.RawMessage `json:"scenario"`
+	}
+	json.Unmarshal(raw, &rf)
+	sc := &C11Scenario{}
+	if err := json.Unmarshal(rf.Scenario, sc); err != nil {
+		t.Fatal(err)
+	}
+	c := core.NewCtx("quick")
+	sh := gen.ShapeByName(sc.Shape)
+	data := sh.Make(sc.RowSeed, sc.NRows, gen.Profile(sc.Profile))
+	pre := sh.Make(sc.RowSeed+1, sc.PreRows, gen.Profile(sc.Profile))
+	for _, rowPath := range []bool{false, true} {
+		o, _, v := c11Execute(c, sc, sh, data, pre, rowPath)
+		if v != nil {
+			t.Fatal(v)
+		}
+		f, err := parquet.OpenFile(bytes.NewReader(o.bytes), int64(len(o.bytes)))
+		if err != nil {
+			t.Fatal(err)
+		}
+		fmt.Printf("rowPath=%v copied=%d reenc=%d\n", rowPath, o.copied, o.reenc)
+		for gi, rg := range f.Metadata().RowGroups {
+			for ci, col := range rg.Columns {
+				m := col.MetaData
+				if m.BloomFilterOffset == 0 || ci == 6 {
+					fmt.Printf("  rg=%d rows=%d col=%d %v nv=%d nulls=%d bloom=%d enc=%v\n", gi, rg.NumRows, ci, m.PathInSchema, m.NumValues, m.Statistics.NullCount, m.BloomFilterOffset, m.Encoding)
+				}
+			}
+		}
+	}
+}
